@@ -347,7 +347,29 @@ func (in *interp) call(n *Node, cur any, e *env) Res {
 		}
 	}
 	if len(f.cats) > 0 {
-		// type faults of the other arguments are also present
+		// faults of the other arguments are present as well, and a function may check an argument before it evaluates the
+		// next one: a category the call reports whatever value stands in for the failed arguments is acceptable too
+		reps := []any{nil, true, core.Norm(int64(0)), "", []any{}, map[string]any{}}
+		count := map[string]int{}
+		for _, rep := range reps {
+			a2 := append([]any{}, args...)
+			for i := range a2 {
+				if argErr[i] {
+					a2[i] = rep
+				}
+			}
+			r := in.builtin(n.Name, a2)
+			if r.U == "" && r.IsError() {
+				for _, c := range r.Err {
+					count[c]++
+				}
+			}
+		}
+		for _, c := range []string{"invalid-type", "invalid-value", "not-a-number"} {
+			if count[c] == len(reps) {
+				f.add(c)
+			}
+		}
 		return fail(f.cats...)
 	}
 	return in.builtin(n.Name, args)
